@@ -31,7 +31,10 @@ def partitions(tier):
     parts.append({"name": "read-empty", "fn": "sym_read", "first": None, "maxlen": 0, "chunks": 1, "budget": 100, "cost": 1})
     parts.append({"name": "overrun", "fn": "sym_overrun", "maxlen": L + 1, "budget": 600 if q else 3000, "cost": 5})
     for kind in ("tcp", "serial"):
-        parts.append({"name": "write-%s" % kind, "fn": "sym_write", "kind": kind, "maxwrites": 2 if q else 3, "budget": 600 if q else 3000, "cost": 4})
+        for nw in range(1, (2 if q else 3) + 1):
+            for t0 in range(3):
+                parts.append({"name": "write-%s-n%d-t%d" % (kind, nw, t0), "fn": "sym_write", "kind": kind, "maxwrites": 2 if q else 3, "nwrites": nw, "t0": t0,
+                              "budget": 600 if q else 3000, "cost": 2 * nw})
         parts.append({"name": "connect-%s" % kind, "fn": "sym_connect", "kind": kind, "budget": 300, "cost": 1})
     return parts
 
@@ -200,9 +203,11 @@ def sym_overrun(inp, part):
 def sym_write(inp, part):
     from aiomysensors.exceptions import TransportError, TransportFailedError
 
-    n = 1 + inp.pick("nwrites", part.get("maxwrites", 2))
+    n = part["nwrites"]
     pool = TEXTS if part.get("maxwrites", 2) <= 2 else TEXTS[1:4]
-    texts = [pool[inp.pick("t%d" % i, len(pool))] for i in range(n)]
+    half = len(pool) // 3 or 1
+    first_pool = pool[part["t0"] * half:(part["t0"] + 1) * half] if part.get("maxwrites", 2) <= 2 else [pool[part["t0"]]]
+    texts = [(first_pool if i == 0 else pool)[inp.pick("t%d" % i, len(first_pool if i == 0 else pool))] for i in range(n)]
     wf = [bool(inp.bool("write_fault%d" % i)) for i in range(n)]
     df = [bool(inp.bool("drain_fault%d" % i)) for i in range(n)]
     close_fault = bool(inp.bool("close_fault"))
